@@ -40,12 +40,28 @@ theorem unsorted_index_eq (sites : List Site) (k : Nat) (hk : k < sites.length) 
   · unfold Src.C01.geom_inds_unsorted
     simp [geomOrder, List.getElem?_range hk]
 
-/-- The calls by which `Reader.__init__` sets up the channel order: `geometry_from_meta(self.meta, return_index=True,
-sort=sort)` — the caller's `sort` is forwarded — then `np.arange(self.nc)` (the identity `rawChannelOrder` starts from,
-whose first `order.size` entries are then overwritten). -/
+/-- The statements by which `Reader.__init__` sets up the channel order: `geometry_from_meta(self.meta,
+return_index=True, sort=sort)` — the caller's `sort` is forwarded —, `np.arange(self.nc)`, then the prefix assignment
+`raw_channel_order[:order.size] = order`: what `rawChannelOrder` transcribes. -/
 theorem init_order_calls_eq (nc a b c : Int) :
-    Src.C01.init_order_calls (self_nc := nc) a b c = [("geometry_sort_forwarded", []), ("arange", [nc])] := by
-  unfold Src.C01.init_order_calls; simp
+    Src.C01.init_order_calls (self_nc := nc) a b c = initOrderStatements nc := by
+  unfold Src.C01.init_order_calls initOrderStatements; simp
+
+/-- The array statements of `Reader.read` are, in this order and with nothing else in between: permute `csel` through
+`raw_channel_order`; gather the rows `nsel`, cast to float32, gather the columns `csel`; multiply by the gains gathered
+at the SAME `csel` — the statement skeleton `readAt` transcribes (`nsel`, `csel` stand for the variables). -/
+theorem read_statements_eq (nsel csel : Int) :
+    Src.C01.read_statements (nsel := nsel) (csel := csel) = readStatements nsel csel := by
+  unfold Src.C01.read_statements readStatements; simp
+
+/-- The ordering statements of `geometry_from_meta`: with `sort`, keys `(-col, row, shank)` (signs `-1, 1, 1`: the
+model's `Site.key = (shank, row, -col)` read last key first), `lexsort`, every vector re-indexed; without, `arange`. -/
+theorem geom_order_statements_eq :
+    Src.C01.geom_sort_statements = geomOrderStatements true ∧
+    Src.C01.geom_nosort_statements = geomOrderStatements false := by
+  constructor
+  · unfold Src.C01.geom_sort_statements geomOrderStatements; simp
+  · unfold Src.C01.geom_nosort_statements geomOrderStatements; simp
 
 example : rawChannelOrder 3 none = .ok [0, 1, 2] := by simp [rawChannelOrder, List.range, List.range.loop]
 
